@@ -59,7 +59,12 @@ func addModel(id, query string, arity int, f func(in any, a []any) mres, g func(
 	modelByID[id] = m
 }
 
+// judged is set by the check functions when the last case was really judged
+// (not discarded as open / guarded / over budget).
+var judged bool
+
 func checkModel(c modelCase) string {
+	judged = false
 	m := modelByID[c.Model]
 	if m == nil {
 		return "unknown model " + c.Model
@@ -100,6 +105,7 @@ func checkModel(c modelCase) string {
 			return fmt.Sprintf("%s: emitted %s before the error %q", call, univ.ShowAll(res.Vals), res.Err)
 		}
 		rec.Class("model/" + m.id + "/error")
+		judged = true
 		return ""
 	}
 	if res.Err != nil {
@@ -109,6 +115,7 @@ func checkModel(c modelCase) string {
 		return fmt.Sprintf("%s: the documented result is %s, got %s", call, univ.ShowAll(want.out), univ.ShowAll(res.Vals))
 	}
 	rec.Class("model/" + m.id + "/value")
+	judged = true
 	return ""
 }
 
@@ -140,7 +147,6 @@ func runModels(t *testing.T) {
 			}
 			c := mcase(m, in, args)
 			rec.Eval()
-			rec.NT(modelKey(c))
 			if n%2503 == 0 {
 				rec.Sample(map[string]any{"sub": "model", "model": m.id, "query": m.query, "in": univ.Show(in), "args": univ.ShowAll(args)})
 			}
@@ -148,6 +154,18 @@ func runModels(t *testing.T) {
 				complete = false
 				if rec.Violations() < 25 {
 					rec.Direct("model", c, "%s", msg)
+				}
+			}
+			if judged {
+				if m.arity <= 1 {
+					rec.NT(modelKey(c))
+				} else {
+					// arity >= 2 sweeps: distinct cells (Go kinds), not tuples
+					k := "modelcell|" + m.id + "|" + kindOf(in)
+					for _, a := range args {
+						k += "," + kindOf(a)
+					}
+					rec.NT(k)
 				}
 			}
 		}
@@ -171,7 +189,7 @@ func runModels(t *testing.T) {
 				}
 			}
 		default:
-			count := rec.Scale(9000, 250000)
+			count := rec.Scale(20000, 250000)
 			for k := 0; k < count; k++ {
 				args := make([]any, m.arity)
 				for p := range args {
@@ -188,7 +206,7 @@ func runModels(t *testing.T) {
 	generic := gen.Value(gen.Opt{Reps: true, Special: true, BadUTF8: true, MaxDepth: 3, MaxWidth: 4, SmallInts: true})
 	for _, m := range models {
 		m := m
-		per := rec.Scale(2500, 60000)
+		per := rec.Scale(4000, 20000)
 		rec.Rapid(t, "model:"+m.id, per, func(t *rapid.T) {
 			var in any
 			var args []any
@@ -206,10 +224,12 @@ func runModels(t *testing.T) {
 			}
 			c := mcase(m, in, args)
 			rec.Eval()
-			rec.NT(modelKey(c))
 			rec.Sample(map[string]any{"sub": "model", "model": m.id, "query": m.query, "in": univ.Show(in), "args": univ.ShowAll(args)})
 			if msg := checkModel(c); msg != "" {
 				t.Fatalf("%s", rec.Fail("model:"+m.id, c, "%s", msg))
+			}
+			if judged {
+				rec.NT(modelKey(c))
 			}
 		})
 	}
